@@ -26,6 +26,14 @@
 (*                      "canceled" | "wrapcanceled" | "deadline": errors   *)
 (*                      that merely LOOK like a cancellation) or panics    *)
 (*                      with panic capture on (k = "panic")                *)
+(*     SvcBadSignal(n,sg) the runnable makes a lifecycle mistake: it calls  *)
+(*                      Signal(Healthy) when the node is not NEW (Healthy   *)
+(*                      twice, Healthy after Done) or Signal(Done) when it  *)
+(*                      is not HEALTHY (Done before Healthy, Done twice).   *)
+(*                      node.signal panics; the deferred unlock releases    *)
+(*                      s.mu, the runnable's wrapper captures the panic:    *)
+(*                      the node state is untouched and the runnable is     *)
+(*                      gone, a death by panic like any other               *)
 (*   environment: Kill  cancel the context given to supervisor.New         *)
 (*                                                                         *)
 (* The specification describes the behaviour property C18 requires.  It   *)
@@ -90,7 +98,10 @@ Exists(n) == st[n] # "ABSENT"
 \* "canceled" / "wrapcanceled" / "deadline": it returns context.Canceled, an error wrapping context.Canceled, or
 \* context.DeadlineExceeded that do NOT come from its supervisor context (a sub-context of its own, another context).
 SpontaneousKinds == {"err", "nil", "panic", "canceled", "wrapcanceled", "deadline"}
-Kinds == SpontaneousKinds \cup {"ctxErr"}
+\* "badhealthy" / "baddone": the panic of a refused Signal(Healthy) / Signal(Done) (SvcBadSignal); for the processor it
+\* is an error like "panic"
+BadSignalKinds == {"badhealthy", "baddone"}
+Kinds == SpontaneousKinds \cup {"ctxErr"} \cup BadSignalKinds
 \* results whose innermost error equals context.Canceled, i.e. ctx.Err() of a cancelled supervisor context
 LooksCancelled == {"ctxErr", "canceled", "wrapcanceled"}
 
@@ -224,6 +235,18 @@ SvcExit(n, k) ==
     /\ todo' = [todo EXCEPT ![n] = 1] /\ sawc' = [sawc EXCEPT ![n] = FALSE]      \* instance-local values die with it
     /\ UNCHANGED <<shape, st, own, sched, supLive, procUp, dirty>>
 
+\* A signal the node state does not allow.  supervisor.Signal panics (after releasing the tree lock); nothing of the
+\* node changes, the runnable's goroutine ends with the captured panic.
+SvcBadSignal(n, sg) ==
+    /\ pc[n] \in {"run", "doneret"}
+    /\ \/ sg = "healthy" /\ st[n] # "NEW"
+       \/ sg = "done" /\ st[n] # "HEALTHY"
+    /\ pc' = [pc EXCEPT ![n] = "exited"]
+    /\ res' = [res EXCEPT ![n] = IF sg = "healthy" THEN "badhealthy" ELSE "baddone"]
+    /\ running' = [running EXCEPT ![n] = @ - 1]
+    /\ todo' = [todo EXCEPT ![n] = 1] /\ sawc' = [sawc EXCEPT ![n] = FALSE]
+    /\ UNCHANGED <<shape, st, own, sched, supLive, procUp, dirty>>
+
 -----------------------------------------------------------------------------
 (* properties *)
 
@@ -255,6 +278,8 @@ DoneLeftAloneStep ==
         \/ st'[n] = "DONE"
         \/ st'[n] = "ABSENT" /\ \E a \in Anc(n) : Want(a) /\ st'[a] = "NEW"
         \/ st'[n] = "NEW" /\ ~Live(n) /\ Returned(n)          \* its context was cancelled by a related failure
+        \/ st'[n] = "DEAD" /\ pc[n] = "exited" /\ res[n] # "nil"   \* it did not complete after all: its runnable panicked
+                                                                \* after the Done signal (eg. signalled Done twice)
 DoneLeftAlone == [][DoneLeftAloneStep]_vars
 
 \* C18: only DEAD/CANCELED nodes are ever (re)started, and only while nothing of the old incarnation runs
